@@ -601,7 +601,11 @@ class NetworkXPropertyGraph(ABCPropertyGraph, NetworkXMixin):
         int_id = self.storage.add_blank_node_to_graph(self.graph_id, Class=label,
                                                       NodeID=node_id)
         if props is not None:
-            self.storage.get_graph(self.graph_id).nodes[int_id].update(props)
+            # the identity of the new node is what the caller asked for, whatever the properties
+            # (e.g. read from another node) carry under these keys
+            self.storage.get_graph(self.graph_id).nodes[int_id].update(
+                {k: v for k, v in props.items() if k not in (ABCPropertyGraph.GRAPH_ID, ABCPropertyGraph.NODE_ID,
+                                                              ABCPropertyGraph.PROP_CLASS)})
 
     def add_link(self, *, node_a: str, rel: str, node_b: str, props: Dict[str, Any] = None) -> None:
         """
